@@ -32,6 +32,25 @@ Proof. exact lay_nodup. Qed.
 Theorem C18_version : cldr_version = cldr_json_version.
 Proof. exact data_version. Qed.
 
+(* why "strictly increasing" is the right obligation: the model reads a single-key table with assoc1 (first row with
+   that key); the code calls binary_search_by_key and indexes the table at the position found.  ANY search meeting
+   binary_search's documented contract returns, on a strictly increasing table, exactly the model's answer *)
+From UL Require SearchContract.
+Theorem C18_sorted_makes_search_deterministic : forall f, SearchContract.search_contract1 f ->
+  forall k l, sorted1 l = true ->
+  match f k l with Some i => option_map snd (nth_error l i) | None => None end = assoc1 k l.
+Proof. exact SearchContract.search_contract_is_assoc1. Qed.
+Theorem C18_sorted_makes_search_deterministic_2 : forall f, SearchContract.search_contract2 f ->
+  forall a b l, sorted2 l = true ->
+  match f a b l with Some i => option_map snd (nth_error l i) | None => None end = assoc2 a b l.
+Proof. exact SearchContract.search_contract_is_assoc2. Qed.
+Print Assumptions C18_sorted_makes_search_deterministic_2.
+(* non-vacuity: a search meeting the contract exists *)
+Theorem C18_search_contract_satisfiable : SearchContract.search_contract1 SearchContract.find1.
+Proof. exact SearchContract.find1_contract. Qed.
+Print Assumptions C18_sorted_makes_search_deterministic.
+Print Assumptions C18_search_contract_satisfiable.
+
 Print Assumptions C18_counts.
 Print Assumptions C18_each_entry.
 Print Assumptions C18_rows_from_cldr.
